@@ -89,6 +89,12 @@ def one_case(ctx: Ctx, stream: str, i: int, max_len: int, depth: int, force_patt
     enc.freeze()
     reply = ctx.model.ask(['reduce', esx])
     status, red = safe(e.reduce)
+    # reduce() is a function of the expression: the operand (and the caller's arrays inside it) is left as it was
+    after = enc.op(e)
+    dmut = first_diff(esx, after)
+    if dmut is not None:
+        ctx.fail(stream, i, 'reduce-modifies-operand', f'the expression differs after reduce() at {dmut[0]}: '
+                 f'{dmut[1]!r:.120} became {dmut[2]!r:.120}', {'expr': sx(esx)[:3000], 'planted': info['planted']})
     for p in info['planted']:
         ctx.count('planted:' + p)
     ctx.count('len:%d' % min(info['length'], 12))
